@@ -11,6 +11,7 @@ import (
 	"runtime"
 	"strconv"
 	"sync"
+	"sync/atomic"
 	"time"
 
 	"github.com/relab/hotstuff/core/logging"
@@ -112,9 +113,12 @@ func twinsRun() {
 
 	wg.Add(int(numWorkers))
 
+	// the workers share the scenarios among them: each takes the next one until all have been taken
+	// (a fixed share per worker would skip the remainder, and everything with more workers than scenarios).
+	var taken atomic.Uint64
 	for i := 0; i < int(numWorkers); i++ {
 		go func() {
-			for i := uint64(0); i < numScenarios/uint64(numWorkers); i++ {
+			for taken.Add(1) <= numScenarios {
 				if ok, err := t.generateAndExecuteScenario(); err != nil {
 					checkf("failed to execute scenario: %v", err)
 				} else if !ok {
